@@ -29,7 +29,7 @@ theorem facts_ok :
       Facts.C16.deleteKeepsVisible && Facts.C16.hideCountsVisibleOthers &&
       Facts.C16.moveRenumbersLocalSheetId && Facts.C16.deleteAdjustsDefinedNames &&
       Facts.C16.copyTargetByPartPath && Facts.C16.newSheetSkipsExistingParts &&
-      Facts.C16.definedNameScopeResolved) = true ∧ Facts.C16.workbookScopeName = "Workbook" := by
+      Facts.C16.definedNameScopeResolved && Facts.C16.deleteDefinedNameByScope) = true ∧ Facts.C16.workbookScopeName = "Workbook" := by
   decide
 
 /-! ## invariants over any history (clauses "names stay unique case-insensitively and valid",
@@ -177,8 +177,9 @@ theorem sheets_refine_list_step (ops : List Op) (op : Op) :
   exact (sim_step _ op hi hp).symm
 
 /-- the call is accepted by the implementation model exactly when the list model accepts it
-(SetDefinedName is outside the list model) -/
-theorem sheets_refine_list_accept (ops : List Op) (op : Op) (hop : ∀ k sc, op ≠ .defname k sc) :
+(SetDefinedName / DeleteDefinedName are outside the list model) -/
+theorem sheets_refine_list_accept (ops : List Op) (op : Op)
+    (hop : ∀ k sc, op ≠ .defname k sc ∧ op ≠ .deldef k sc) :
     (Spec.step (view (run init ops)) op).2 = (step (run init ops) op).2.isNone := by
   obtain ⟨hi, hp⟩ := consistent_any_history ops
   exact sim_accept _ op hi hp hop
